@@ -102,7 +102,10 @@ func runShard(c *vrun.Ctx, exe string, sh *shard) (*childOutcome, error) {
 	for attempt := 0; attempt < 25; attempt++ {
 		cmd := exec.Command(exe)
 		cmd.Env = append(os.Environ(), "WIREH_CHILD=1", "WIREH_IN="+sh.path, "WIREH_OUT="+outPath, "WIREH_PROGRESS="+progPath,
-			fmt.Sprintf("WIREH_SEED=%d", c.Seed), fmt.Sprintf("WIREH_SKIP=%d", skip), "GOMAXPROCS=2")
+			fmt.Sprintf("WIREH_SEED=%d", c.Seed), fmt.Sprintf("WIREH_SKIP=%d", skip), "GOMAXPROCS=2",
+			// freed heap stays resident until the kernel wants it back: fresh memory is the
+			// expensive part of replaying the allocation probes on a loaded machine
+			"GODEBUG=madvdontneed=0")
 		var stderr bytes.Buffer
 		cmd.Stderr = &stderr
 		cmd.Stdout = &stderr
@@ -131,8 +134,9 @@ func runShard(c *vrun.Ctx, exe string, sh *shard) (*childOutcome, error) {
 		if len(parts) > 1 {
 			typ = parts[1]
 		}
+		first := strings.SplitN(strings.TrimSpace(tail), "\n", 2)[0]
 		out.crashes = append(out.crashes, viol{Key: "crash:" + typ,
-			What:   fmt.Sprintf("the process died (%v) while the decoders were fed the inputs of case %s: a fatal runtime error is not recoverable", err, id),
+			What:   fmt.Sprintf("the process died (%v: %s) while the decoders were fed the inputs of case %s: a fatal runtime error is not recoverable", err, first, id),
 			Replay: map[string]any{"case": id, "stderr": tail}})
 		skip = idx + 1
 		if skip >= sh.lines {
@@ -218,6 +222,13 @@ func Run(c *vrun.Ctx) error {
 			}
 		}
 		list = keep
+	}
+
+	if kind := os.Getenv("VERIF_WIRE_CORRUPT"); kind != "" { // self-test: falsify one expected value
+		if err := corruptOne(list, kind); err != nil {
+			return err
+		}
+		c.Logf("SELF-TEST: one expected value of the specification was falsified (%s); the run must report a violation", kind)
 	}
 
 	// vacuity audit on the specification's side: every message type has cases, every mutation
@@ -384,6 +395,23 @@ func Run(c *vrun.Ctx) error {
 	maxAllocAt := ""
 	done := 0
 	var binderErrs []string
+	type slow struct {
+		ms int64
+		id string
+	}
+	var slowest []slow
+	for si, o := range outs {
+		var ms int64
+		for _, r := range o.results {
+			ms += r.Ms
+			slowest = append(slowest, slow{r.Ms, r.ID})
+		}
+		c.Logf("shard %d: %d cases, %.1fs in cases", si, len(o.results), float64(ms)/1000)
+	}
+	sort.Slice(slowest, func(a, b int) bool { return slowest[a].ms > slowest[b].ms })
+	for i := 0; i < len(slowest) && i < 8; i++ {
+		c.Logf("slow case: %6d ms %s", slowest[i].ms, slowest[i].id)
+	}
 	for _, o := range outs {
 		for _, v := range o.crashes {
 			c.Violation(v.Key, v.What, v.Replay)
@@ -434,4 +462,55 @@ func Run(c *vrun.Ctx) error {
 		"It does not mean every field value or every byte string: values are covered by layout-relevant classes (counts, lengths, flags, version epochs) with seeded pseudo-random contents, " +
 		"malformed inputs by the structured classes named in `rule`."
 	return nil
+}
+
+// corruptOne falsifies one expected value of an inv case (self-test of the binding: the run
+// must then report a violation).  kind: size | res | token | back.
+func corruptOne(list []rawCase, kind string) error {
+	for i := range list {
+		if list[i].typ != "inv" {
+			continue
+		}
+		var tr []any
+		dec := json.NewDecoder(bytes.NewReader(list[i].line))
+		dec.UseNumber()
+		if err := dec.Decode(&tr); err != nil {
+			return err
+		}
+		cs, ex := tr[1].(map[string]any), tr[2].(map[string]any)
+		if cs["shape"] != "n-2" {
+			continue
+		}
+		switch kind {
+		case "size":
+			n, _ := ex["size"].(json.Number).Int64()
+			ex["size"] = n + 1
+		case "res":
+			vs := ex["variants"].([]any)
+			for _, v := range vs {
+				vm := v.(map[string]any)
+				if vm["cls"] == "trunc" && vm["res"] == "short" {
+					vm["res"] = "malformed"
+					break
+				}
+			}
+		case "token":
+			toks := ex["tokens"].([]any)
+			body := toks[1].(map[string]any)["body"].([]any)
+			body[0].(map[string]any)["w"] = 2 // inv.type written with 2 bytes
+			sz, _ := ex["size"].(json.Number).Int64()
+			ex["size"] = sz - 4
+		case "back":
+			ex["back"] = map[string]any{"inv": []any{map[string]any{"n": 1, "e": []any{}}}}
+		default:
+			return fmt.Errorf("VERIF_WIRE_CORRUPT=%s: unknown kind", kind)
+		}
+		b, err := json.Marshal(tr)
+		if err != nil {
+			return err
+		}
+		list[i].line = b
+		return nil
+	}
+	return fmt.Errorf("corrupt: no inv case n-2")
 }
